@@ -206,6 +206,9 @@ def explorer_cells(tier):
     # a task that fails: flush / gather-and-close raise inside the awaited pool method
     cell("wait flush failing t2", tasks=2, fail=[0], sessions=[["flush", "num-running", "flush -r", H]])
     cell("wait gac failing t2 | help", tasks=2, fail=[1], sessions=[["gather-and-close", "nope"], ["-h", "num-ended"]])
+    # a close attempt that was answered with a task's exception, then further attempts (same and other session)
+    cell("gac failing t1, gac -r, num-running", tasks=1, fail=[0], sessions=[["gather-and-close", "gather-and-close -r", "num-running"]])
+    cell("gac failing t1 | gac -r", tasks=1, fail=[0], sessions=[["gather-and-close", "num-ended"], ["gather-and-close -r", "-h"]])
     if not q:
         cell("T wait gac t3 slowecb", tasks=3, slow_ecb=[1], sessions=[["num-running", "gather-and-close -r", "cancel -h"]])
         cell("T three sessions", tasks=2, slow_ecb=[0], sessions=[["flush", H], ["-h", "cancel x"], ["until-closed"], ["gather-and-close"]])
